@@ -125,7 +125,7 @@ func checkPull(w *World, p *PullReport) (bad []pullVerdict, scen []string) {
 		// classify the scenario from the commit graph (independent reader)
 		sc := "s1"
 		if existed {
-			sc = scenarioOf(r, id, p.PreRefs["refs/bugs/"+id])
+			sc = scenarioOf(r, p.Remote, id, p.PreRefs["refs/bugs/"+id])
 		}
 		scen = append(scen, sc)
 		switch res.Status {
@@ -171,12 +171,89 @@ func checkPull(w *World, p *PullReport) (bad []pullVerdict, scen []string) {
 			add("no-report-for-remote-entity", id)
 		}
 	}
+	// 4. identities: same three clauses over version chains. Worlds are honest and an identity is only
+	// edited by its owner, so local and remote chains are always prefix-comparable.
+	isPrefix := func(a, b []string) bool {
+		return len(a) <= len(b) && strings.Join(a, ",") == strings.Join(b[:len(a)], ",")
+	}
+	idResults := map[string]entity.MergeResult{}
+	for _, res := range p.IdResults {
+		if res.Err != nil {
+			add("identity-merge-error/"+Normalize(res.Err.Error()), fmt.Sprintf("identity %s: %v", res.Id, res.Err))
+			continue
+		}
+		idResults[string(res.Id)] = res
+	}
+	for id, pre := range p.IdPre {
+		post, ok := p.IdPost[id]
+		if !ok {
+			add("identity-broken-by-pull", fmt.Sprintf("identity %s was readable before the pull", id))
+			continue
+		}
+		if !isPrefix(pre, post) {
+			add("pull-lost-identity-version", fmt.Sprintf("identity %s\npre %v\npost %v", id, pre, post))
+		}
+	}
+	for id, rem := range p.IdRemote {
+		pre, existed := p.IdPre[id]
+		post, ok := p.IdPost[id]
+		if !ok {
+			add("remote-identity-not-created", id)
+			continue
+		}
+		want := rem
+		if existed && isPrefix(rem, pre) {
+			want = pre
+		} else if existed && !isPrefix(pre, rem) {
+			add("harness/identity-diverged", id) // cannot happen by construction
+			continue
+		}
+		if strings.Join(post, ",") != strings.Join(want, ",") {
+			add("identity-post-is-not-union", fmt.Sprintf("identity %s: %d version(s) before, remote has %d, after the pull %d\npre %v\nremote %v\npost %v", id, len(pre), len(rem), len(post), pre, rem, post))
+		}
+		res, reported := idResults[id]
+		if !reported {
+			add("no-report-for-remote-identity", id)
+			continue
+		}
+		changed := strings.Join(pre, ",") != strings.Join(post, ",")
+		switch res.Status {
+		case entity.MergeStatusNew:
+			if existed {
+				add("identity-report-new-but-existed", id)
+			}
+		case entity.MergeStatusNothing:
+			if !existed {
+				add("identity-report-nothing-but-absent", id)
+			} else if changed {
+				add("identity-report-nothing-but-changed", id)
+			} else if len(rem) > len(pre) {
+				add("identity-report-nothing-but-remote-had-more", fmt.Sprintf("identity %s pre %v remote %v", id, pre, rem))
+			}
+		case entity.MergeStatusUpdated:
+			if !existed {
+				add("identity-report-updated-but-absent", id)
+			} else if !changed {
+				add("identity-report-updated-but-unchanged", id)
+			}
+			scen = append(scen, fmt.Sprintf("id-ff:+%d", len(rem)-len(pre)))
+		case entity.MergeStatusInvalid:
+			add("identity-report-invalid-in-honest-world/"+Normalize(res.Reason), fmt.Sprintf("identity %s: %s", id, res.Reason))
+		}
+		if res.Status == entity.MergeStatusNew || res.Status == entity.MergeStatusUpdated {
+			if name, ok := p.IdEntityName[id]; !ok {
+				add("identity-report-without-entity", id)
+			} else if name != p.IdStoredName[id] {
+				add("returned-identity-is-not-the-merged-result", fmt.Sprintf("identity %s: entity handed back has last name %q, the identity stored after the merge %q", id, name, p.IdStoredName[id]))
+			}
+		}
+	}
 	return bad, scen
 }
 
 // scenarioOf classifies (local head before, remote head) by ancestry.
-func scenarioOf(r *Replica, id, preHead string) string {
-	remHead, err := r.Repo.ResolveRef("refs/remotes/origin/bugs/" + id)
+func scenarioOf(r *Replica, remoteName, id, preHead string) string {
+	remHead, err := r.Repo.ResolveRef("refs/remotes/" + remoteName + "/bugs/" + id)
 	if err != nil {
 		return "s?"
 	}
@@ -224,7 +301,7 @@ func scenarioOf(r *Replica, id, preHead string) string {
 }
 
 func runC02(tb report.TB, rep *report.Reporter, c worldCase) {
-	w, err := NewWorld(c.Replicas, c.Seed)
+	w, err := NewWorldN(c.Replicas, c.Remotes, c.Seed)
 	if err != nil {
 		tb.Fatalf("harness: world: %v", err)
 	}
@@ -280,8 +357,10 @@ func runC02(tb report.TB, rep *report.Reporter, c worldCase) {
 	}
 	// a final round of pulls so that every replica meets the final remote state
 	for r := range w.Replicas {
-		if !step(len(c.Actions)+r, Action{Kind: "pull", R: r}) {
-			return
+		for rem := range w.Remotes {
+			if !step(len(c.Actions)+r, Action{Kind: "pull", R: r, Rem: rem}) {
+				return
+			}
 		}
 	}
 	finish(false)
